@@ -244,7 +244,8 @@ Definition rmap {A B} (f : A -> B) (r : result A) : result B := bind r (fun a =>
 Definition dg (h : Z) (bs : list Z) : Z := fold_left (fun h b => (h * 257 + b + 1) mod 1000000007) bs h.
 Definition dgr (h : Z) (r : result (list Z)) : Z :=
   match r with Ok bs => dg h bs | _ => (h * 257 + 300) mod 1000000007 end.
-Definition zrange (lo n : nat) : list Z := map Z.of_nat (List.seq lo n).
+Fixpoint zrange_from (lo : Z) (n : nat) : list Z := match n with O => [] | S m => lo :: zrange_from (lo + 1) m end.
+Definition zrange (lo n : Z) : list Z := zrange_from lo (Z.to_nat n).
 Definition set_cmd (q : scp) v := {| sdp_part := sdp_part q; cmd_rc := v; seq := seq q; arg1 := arg1 q; arg2 := arg2 q; arg3 := arg3 q |}.
 Definition set_seq (q : scp) v := {| sdp_part := sdp_part q; cmd_rc := cmd_rc q; seq := v; arg1 := arg1 q; arg2 := arg2 q; arg3 := arg3 q |}.
 Definition set2 (bs : list Z) (pos : nat) (v : Z) : list Z :=
@@ -486,9 +487,11 @@ def run(chk, args):
     # ---- model
     if chk.model_ok:
         try:
-            mcases = flat + [s for s in sweeps if s[0] != "sweep16raw"]
+            msw = [s for s in sweeps if s[0] != "sweep16raw"]
+            mcases = flat + msw
             mouts = outs + [o for s, o in zip(sweeps, souts) if s[0] != "sweep16raw"]
-            vals = chk.coq_eval(HEADER, [coq_expr(c) for c in mcases], shard=500)
+            vals = chk.coq_eval(HEADER, [coq_expr(c) for c in flat], shard=500)
+            vals += chk.coq_eval(HEADER, [coq_expr(c) for c in msw], shard=3, name="sweep")
             bad = 0
             for c, o, v in zip(mcases, mouts, vals):
                 chk.traces_validated += 1
